@@ -7,6 +7,7 @@
 EXTENDS Integers, FiniteSets, Sequences, TLC, Json
 CONSTANT MaxTasks
 VARIABLES cap, st, ret, pan, handled, waitset, waiter, l,
+          nh,           \* no handler of the driver is configured (the library reports panics itself): nothing to observe
           cfgh, hat     \* the handler configured now, and the one that was configured when each function was submitted
 Trace == ndJsonDeserialize("trace.ndjson")
 Ev == Trace[l]
@@ -14,41 +15,42 @@ T == 1..MaxTasks
 Inside == {t \in T : st[t] = "in"}
 
 Init == /\ l = 1 /\ cap = 3 /\ st = [t \in T |-> "none"] /\ ret = {} /\ pan = {} /\ handled = {} /\ waitset = {} /\ waiter = "idle"
-        /\ cfgh = 0 /\ hat = [t \in T |-> 0]
+        /\ cfgh = 0 /\ hat = [t \in T |-> 0] /\ nh = FALSE
 New == /\ Ev.ev = "new" /\ cap' = (IF Ev.n < 1 THEN 3 ELSE Ev.n)
        /\ st' = [t \in T |-> "none"] /\ ret' = {} /\ pan' = {} /\ handled' = {} /\ waitset' = {} /\ waiter' = "idle"
        /\ cfgh' = 0 /\ hat' = [t \in T |-> 0]
+       /\ nh' = ("nohandler" \in DOMAIN Ev /\ Ev.nohandler)
 \* SetPanicHandler between submissions (by the submitting goroutine): later submissions report to the new handler
-SetHandler == /\ Ev.ev = "sethandler" /\ cfgh' = Ev.h /\ UNCHANGED <<cap, st, ret, pan, handled, waitset, waiter, hat>>
+SetHandler == /\ Ev.ev = "sethandler" /\ cfgh' = Ev.h /\ UNCHANGED <<cap, st, ret, pan, handled, waitset, waiter, hat, nh>>
 GoCall == /\ Ev.ev = "gocall" /\ st[Ev.i] = "none" /\ st' = [st EXCEPT ![Ev.i] = "called"]
           /\ hat' = [hat EXCEPT ![Ev.i] = cfgh]
-          /\ UNCHANGED <<cap, ret, pan, handled, waitset, waiter, cfgh>>
+          /\ UNCHANGED <<cap, ret, pan, handled, waitset, waiter, cfgh, nh>>
 GoRet == /\ Ev.ev = "goret" /\ st[Ev.i] # "none" /\ ret' = ret \cup {Ev.i}
-         /\ UNCHANGED <<cap, st, pan, handled, waitset, waiter, cfgh, hat>>
+         /\ UNCHANGED <<cap, st, pan, handled, waitset, waiter, cfgh, hat, nh>>
 \* a submitted function starts: exactly once, and never while `cap` functions are inside
 Enter == /\ Ev.ev = "enter" /\ st[Ev.i] = "called"
          /\ Cardinality(Inside) < cap
-         /\ st' = [st EXCEPT ![Ev.i] = "in"] /\ UNCHANGED <<cap, ret, pan, handled, waitset, waiter, cfgh, hat>>
+         /\ st' = [st EXCEPT ![Ev.i] = "in"] /\ UNCHANGED <<cap, ret, pan, handled, waitset, waiter, cfgh, hat, nh>>
 Exit == /\ Ev.ev = "exit" /\ st[Ev.i] = "in" /\ st' = [st EXCEPT ![Ev.i] = "out"]
         /\ pan' = (IF Ev.panic THEN pan \cup {Ev.i} ELSE pan)
-        /\ UNCHANGED <<cap, ret, handled, waitset, waiter, cfgh, hat>>
+        /\ UNCHANGED <<cap, ret, handled, waitset, waiter, cfgh, hat, nh>>
 \* the handler receives exactly the value a finished function panicked with, once
 Handler == /\ Ev.ev = "handler" /\ Ev.v \in pan /\ Ev.v \notin handled /\ handled' = handled \cup {Ev.v}
            /\ ("h" \in DOMAIN Ev => Ev.h = hat[Ev.v])      \* ... by the handler configured when the function was submitted
-           /\ UNCHANGED <<cap, st, ret, pan, waitset, waiter, cfgh, hat>>
+           /\ UNCHANGED <<cap, st, ret, pan, waitset, waiter, cfgh, hat, nh>>
 WaitCall == /\ Ev.ev = "waitcall" /\ waiter' = "waiting" /\ waitset' = ret
-            /\ UNCHANGED <<cap, st, ret, pan, handled, cfgh, hat>>
+            /\ UNCHANGED <<cap, st, ret, pan, handled, cfgh, hat, nh>>
 \* Wait returns only after every function submitted before the call has finished (and its panic was handled)
 WaitRet == /\ Ev.ev = "waitret" /\ waiter = "waiting"
-           /\ \A t \in waitset : st[t] = "out" /\ (t \in pan => t \in handled)
-           /\ waiter' = "returned" /\ UNCHANGED <<cap, st, ret, pan, handled, waitset, cfgh, hat>>
+           /\ \A t \in waitset : st[t] = "out" /\ ((t \in pan /\ ~nh) => t \in handled)
+           /\ waiter' = "returned" /\ UNCHANGED <<cap, st, ret, pan, handled, waitset, cfgh, hat, nh>>
 \* end of a scenario (the driver has opened every gate, Wait has returned, the n probe tasks that
 \* test for leaked slots have all been inside together): everything submitted has run exactly once
-End == /\ Ev.ev = "end" /\ \A t \in T : st[t] \in {"none", "out"} /\ (t \in pan => t \in handled)
+End == /\ Ev.ev = "end" /\ \A t \in T : st[t] \in {"none", "out"} /\ ((t \in pan /\ ~nh) => t \in handled)
        /\ Ev.submitted = Cardinality({t \in T : st[t] = "out"})
-       /\ UNCHANGED <<cap, st, ret, pan, handled, waitset, waiter, cfgh, hat>>
+       /\ UNCHANGED <<cap, st, ret, pan, handled, waitset, waiter, cfgh, hat, nh>>
 Next == l <= Len(Trace) /\ l' = l + 1 /\ (New \/ SetHandler \/ GoCall \/ GoRet \/ Enter \/ Exit \/ Handler \/ WaitCall \/ WaitRet \/ End)
-vars == <<cap, st, ret, pan, handled, waitset, waiter, l, cfgh, hat>>
+vars == <<cap, st, ret, pan, handled, waitset, waiter, l, cfgh, hat, nh>>
 Spec == Init /\ [][Next]_vars
 Accepted == TLCGet("stats").diameter - 1 = Len(Trace)
 =============================================================================
